@@ -1,6 +1,7 @@
 import PprofVerif.Lemmas.MessagesNested
 import PprofVerif.Lemmas.EncodeWF
 import PprofVerif.Lemmas.NormalizeIdem
+import PprofVerif.Lemmas.CodecSchemaFacts
 /-!
 # C01 — Profile serialization round-trips without loss
 
@@ -326,5 +327,121 @@ example : (∃ b, serialize exProfile = .ok b ∧ parseUncompressed b = .ok (Pro
   exact ⟨parse_serialize exProfile (by decide) (by decide) (by decide) hr hz,
     copy_eq_normalize exProfile (by decide) (by decide) (by decide) hr hz⟩
 
+/-!
+## The wire schema of profile/encode.go and profile/proto.go, regenerated on every run
+
+`tools/extract/codecschema.go` re-reads the Go source on every run and writes
+`Gen/CodecSchema.lean`.  The obligations below compare it with the schema the MODEL implements:
+
+* `schema_encoders_are_model`, `schema_decoders_are_model`: the schemas of `Model/CodecSchema.lean`,
+  run through the generic interpreter, ARE the `encode` functions and decoder tables of
+  `Model/Codec.lean` (all values, all wire fields, all field numbers);
+* `codec_schema_matches`: the schema regenerated from the Go source is that schema (statement
+  order, tags, encoder functions, fields, the PeriodType guard, decoder table order and shapes);
+* `packed_threshold_matches`, `varint_limit_matches`, `wire_types_match`, `proto_source_shape`:
+  the constants of proto.go are the constants of `Model/Wire.lean`;
+* `intern_order_model`, `intern_order_matches`: preEncode interns strings in the model's order;
+* `dense_tables_match`: postDecode's id tables are `len+1` long and only indexed under their guard.
+
+A change of the Go wire schema therefore breaks one of these on the next run even when random
+sampling does not hit it.
+-/
+section WireSchema
+open PV.CodecSchema PV.Spec.CodecSchemaExpected
+
+/-- The encoder schemas, interpreted generically, are the model's `encode` functions. -/
+theorem schema_encoders_are_model :
+    (∀ p : ProfileX, encodeBy ProfileX.dict p ProfileX.encSchema = some p.encode) ∧
+    (∀ p : ValueTypeX, encodeBy ValueTypeX.dict p ValueTypeX.encSchema = some p.encode) ∧
+    (∀ p : SampleX, encodeBy SampleX.dict p SampleX.encSchema = some p.encode) ∧
+    (∀ p : LabelX, encodeBy LabelX.dict p LabelX.encSchema = some p.encode) ∧
+    (∀ p : MappingX, encodeBy MappingX.dict p MappingX.encSchema = some p.encode) ∧
+    (∀ p : LocationX, encodeBy LocationX.dict p LocationX.encSchema = some p.encode) ∧
+    (∀ p : LineX, encodeBy LineX.dict p LineX.encSchema = some p.encode) ∧
+    (∀ p : FunctionX, encodeBy FunctionX.dict p FunctionX.encSchema = some p.encode) :=
+  Facts.schema_encoders_are_model
+
+/-- The decoder tables, interpreted generically (`dec[b.field]`, out of range ⇒ skipped), are the
+model's `apply` functions — for every wire field, including field numbers outside the tables. -/
+theorem schema_decoders_are_model :
+    (∀ (m : ProfileX) (f : Field), applyBy ProfileX.dict m f ProfileX.decTable = ProfileX.apply m f) ∧
+    (∀ (m : ValueTypeX) (f : Field), applyBy ValueTypeX.dict m f ValueTypeX.decTable = ValueTypeX.apply m f) ∧
+    (∀ (m : SampleX) (f : Field), applyBy SampleX.dict m f SampleX.decTable = SampleX.apply m f) ∧
+    (∀ (m : LabelX) (f : Field), applyBy LabelX.dict m f LabelX.decTable = LabelX.apply m f) ∧
+    (∀ (m : MappingX) (f : Field), applyBy MappingX.dict m f MappingX.decTable = MappingX.apply m f) ∧
+    (∀ (m : LocationX) (f : Field), applyBy LocationX.dict m f LocationX.decTable = LocationX.apply m f) ∧
+    (∀ (m : LineX) (f : Field), applyBy LineX.dict m f LineX.decTable = LineX.apply m f) ∧
+    (∀ (m : FunctionX) (f : Field), applyBy FunctionX.dict m f FunctionX.decTable = FunctionX.apply m f) :=
+  Facts.schema_decoders_are_model
+
+/-- The schema regenerated from profile/encode.go is the schema of the model: same message types
+in the same order, same statements (tag, encoder, field, guard) in every `encode` method, same
+decoder closure (shape, receiver type, field, nested message type) at every table index. -/
+theorem codec_schema_matches : Gen.CodecSchema.all = expectedSchema := Facts.codec_schema_matches
+
+/-- Every regenerated decoder table lists its entries at their own index (the Go code indexes the
+table by the field number; the model's tables carry the index explicitly). -/
+theorem decoder_indexes_are_positions : Gen.CodecSchema.all.all indexesArePositions = true :=
+  Facts.decoder_indexes_are_positions
+
+/-- proto.go `encodeUint64s`/`encodeInt64s` switch to the packed form at the threshold the model
+uses, for every tag and every list.  (A different threshold still round-trips — the decoder accepts
+both forms — so sampling cannot see it; this obligation does.) -/
+theorem packed_threshold_matches (tag : Nat) :
+    (∀ xs : List Nat, encodeUint64s tag xs =
+      if xs.length > Gen.CodecSchema.proto.packedThresholdUint64s
+      then encodeMessage tag (xs.flatMap encodeVarint) else xs.flatMap (encodeUint64 tag)) ∧
+    (∀ xs : List Int, encodeInt64s tag xs =
+      if xs.length > Gen.CodecSchema.proto.packedThresholdInt64s
+      then encodeMessage tag ((xs.map toU64).flatMap encodeVarint) else xs.flatMap (encodeInt64 tag)) :=
+  Facts.packed_threshold_matches tag
+
+/-- proto.go `decodeVarint` gives up at the byte index at which the model does. -/
+theorem varint_limit_matches (i u : Nat) (b : UInt8) (rest : Bytes) :
+    decodeVarintGo i u (b :: rest) =
+      if i ≥ Gen.CodecSchema.proto.varintLimit then .err "bad varint" else
+      let u' := (u + (b.toNat % 128) * 2 ^ (7 * i)) % two64
+      if b.toNat < 128 then .ok (u', rest) else decodeVarintGo (i + 1) u' rest :=
+  Facts.varint_limit_matches i u b rest
+
+/-- proto.go `decodeField` splits the key, accepts exactly the wire types and reads exactly the
+fixed widths the model does: for any input whose key varint decodes to `x`. -/
+theorem wire_types_match (data rest : Bytes) (x : Nat) (h : decodeVarint data = .ok (x, rest)) :
+    (x % (Gen.CodecSchema.proto.typeMask + 1) ∉ Gen.CodecSchema.proto.wireTypes →
+      decodeField data = .err "unknown wire type") ∧
+    (∀ t n, (t, n) ∈ Gen.CodecSchema.proto.fixedSizes → x % (Gen.CodecSchema.proto.typeMask + 1) = t →
+      decodeField data =
+        if rest.length < n then .err "not enough data"
+        else .ok ({ num := x / 2 ^ Gen.CodecSchema.proto.fieldShift, typ := t, u64 := le (rest.take n), data := [] },
+                  rest.drop n)) :=
+  Facts.wire_types_match data rest x h
+
+/-- the hypothesis of `wire_types_match` is satisfiable: a fixed64 field (key 9 = field 1, type 1) -/
+example : decodeVarint [9, 1, 2, 3, 4, 5, 6, 7, 8] = .ok (9, [1, 2, 3, 4, 5, 6, 7, 8]) := by decide
+
+/-- The source shape of those proto.go facts: `if len(x) > N`, `if i >= N || i >= len(data)`, and a
+`default:` branch of `switch b.typ` that returns an error. -/
+theorem proto_source_shape :
+    protoShapeOf Gen.CodecSchema.proto = expectedProtoShape Gen.CodecSchema.proto :=
+  Facts.proto_source_shape
+
+/-- The model interns the strings of the probe profile in the order of `internSites`. -/
+theorem intern_order_model : internTable probe = some (internSites.map (·.marker)) :=
+  Facts.intern_order_model
+
+/-- preEncode of profile/encode.go calls `addString` in that order (same expressions under the same
+loops and conditions). -/
+theorem intern_order_matches : Gen.CodecSchema.internOrder = expectedInternOrder :=
+  Facts.intern_order_matches
+
+/-- postDecode builds one dense id table per entity table, of the length the model
+(`IdTables.build`) uses, and indexes them only under `if id < uint64(len(table))`. -/
+theorem dense_tables_match :
+    ∃ extra, Gen.CodecSchema.denseTables = expectedDenseTables extra ∧
+      ∀ ids : List Nat, IdTables.build ids =
+        IdTables.buildGo { dense := List.replicate (ids.length + extra) none, sparse := [] } 0 ids :=
+  Facts.dense_tables_match
+
+end WireSchema
 
 end PV.Props.C01
